@@ -467,6 +467,114 @@ def _subst_atoms(lin, mapping):
     return Lin(c, lin.k)
 
 
+_WRITES = {}
+
+
+def _writes(F, callee, depth=0):
+    """names of the fields a repository function may assign, itself or through the repository functions it calls"""
+    key = (id(F), callee)
+    if key in _WRITES:
+        return _WRITES[key]
+    _WRITES[key] = set()          # recursion guard
+    f = F.fns.get(callee) if F is not None else None
+    out = set()
+    if f is None or not f.get("mir") or depth > 6:
+        _WRITES[key] = {"*"}
+        return _WRITES[key]
+    for blk in f["mir"]["blocks"]:
+        for st in blk["stmts"]:
+            if st["k"] == "assign" and st["lhs"]["p"]:
+                out |= {pe.get("n") for pe in st["lhs"]["p"] if isinstance(pe, dict) and pe.get("n")}
+        tt = blk["term"]
+        if tt["k"] == "call":
+            c = tt.get("callee")
+            if c in F.fns:
+                out |= _writes(F, c, depth + 1)
+            elif c is None:
+                out.add("*")
+            # external callees write only through what they are handed: a `&mut self.field` borrow names the field
+            for st in blk["stmts"]:
+                if st["k"] == "assign" and st["rv"]["k"] == "ref" and st["rv"].get("mut"):
+                    out |= {pe.get("n") for pe in st["rv"]["pl"]["p"] if isinstance(pe, dict) and pe.get("n")}
+    _WRITES[key] = out
+    return out
+
+
+def _stale(B, sym, d, chosen, site_bb, F=None):
+    """does the condition tested in block d mention a local that may be assigned between d and the site?"""
+    locs = set()
+    for x in M.subterms(sym):
+        if x[0] in ("var", "arg") and len(x) > 2 and isinstance(x[2], int):
+            locs.add(x[2])
+        elif x[0] == "tmp" and isinstance(x[1], int):
+            locs.add(x[1])
+    locs = {l for l in locs if len(B.defs().get(l, [])) > (0 if l <= B.arg_count else 1)}
+    # places read through a reference (`self.sp`, `scope.instructions.code`): fields that may be written in between
+    fields = set()      # (root local, field name)
+    for x in M.subterms(sym):
+        if x[0] == "field" and isinstance(x[2], str) and not x[2].isdigit():
+            r = x[1]
+            through_ref = False
+            while r[0] in ("field", "deref", "ref", "index", "downcast"):
+                through_ref = through_ref or r[0] == "deref"
+                r = r[1]
+            if through_ref and r[0] in ("var", "arg", "tmp"):
+                fields.add((r[2] if r[0] != "tmp" else r[1], x[2]))
+    if not locs and not fields:
+        return False
+    key = ("_between", d, chosen, site_bb)
+    if key not in B._cache:
+        fwd = B.reachable(chosen, avoid=[d])
+        between = {b for b in fwd if b == site_bb or site_bb in B.reachable(b, avoid=[d])}
+        B._cache[key] = between
+    between = B._cache[key]
+    for l in locs:
+        for (bi, si, node) in B.defs().get(l, []):
+            if bi in between:
+                if bi == site_bb and si == "term":
+                    continue     # the site's own result
+                return True
+    if fields:
+        names = {n for _, n in fields}
+        roots = {r for r, _ in fields}
+        for bi in between:
+            blk = B.blocks[bi]
+            if blk.get("cleanup"):
+                continue
+            for st in blk["stmts"]:
+                if st["k"] == "assign" and st["lhs"]["p"]:
+                    if any(isinstance(pe, dict) and pe.get("n") in names for pe in st["lhs"]["p"]):
+                        return True
+            tt = blk["term"]
+            if tt["k"] == "call" and bi != site_bb:
+                # a callee handed a mutable borrow rooted at the same object may write the field
+                for a in tt.get("args", []):
+                    if a.get("k") in ("copy", "move") and not a["pl"]["p"]:
+                        for (b2, s2, n2) in B.defs().get(a["pl"]["l"], []):
+                            rv = n2.get("rv") if s2 != "term" else None
+                            if rv and rv["k"] == "ref" and rv.get("mut"):
+                                root = rv["pl"]["l"]
+                                borrowed = {pe.get("n") for pe in rv["pl"]["p"] if isinstance(pe, dict) and pe.get("n")}
+                                cal = tt.get("callee")
+                                if borrowed:
+                                    # `&mut self.stack` exposes that field only
+                                    if not (borrowed & names) and not (cal in (F.fns if F is not None else {}) and (_writes(F, cal) & (names | {"*"}))):
+                                        continue
+                                elif cal is not None and F is not None and cal in F.fns and not (_writes(F, cal) & (names | {"*"})):
+                                    continue     # the callee (and what it calls) never assigns these fields
+                                # through a reborrow chain to the root local
+                                for _ in range(4):
+                                    dd = B.defs().get(root, [])
+                                    if len(dd) == 1 and dd[0][1] != "term" and dd[0][2]["rv"]["k"] in ("ref", "use") and (dd[0][2]["rv"].get("pl") or dd[0][2]["rv"].get("a", {}).get("pl")):
+                                        pl_ = dd[0][2]["rv"].get("pl") or dd[0][2]["rv"]["a"]["pl"]
+                                        root = pl_["l"]
+                                    else:
+                                        break
+                                if root in roots:
+                                    return True
+    return False
+
+
 def edge_facts(B, cx, site_bb, _depth=0):
     """facts holding at entry of site_bb from dominating conditional edges"""
     dom = B.dominators()
@@ -498,6 +606,10 @@ def edge_facts(B, cx, site_bb, _depth=0):
             else:
                 continue
         sym = B.sym_op(t["d"], through_vars="pure")
+        # a condition on a local that is assigned again on the way from the test to the site says nothing about the
+        # value the site sees (`if i < v.len() { i += 5; v[i] }`)
+        if _stale(B, sym, d, chosen, site_bb, cx.F):
+            continue
         vals = [v for v, tt in zip(t["vals"], t["ts"]) if tt == chosen]
         is_other = chosen == t["otherwise"] and chosen not in [tt for tt in t["ts"]]
         if t.get("dty") == "bool":
